@@ -326,6 +326,7 @@ class Run:
         self.ghost = {}
         self.depth = 0
         self.trace = []
+        self.overapprox = False   # set when a model over-approximated (nondeterministic outcome of a library call)
         self.asserts = []     # in-path proof obligations: (pc snapshot, formula, label)
         self.global_overlay = {}   # (id(module dict), name) -> SV : writes to module globals stay inside the path
 
